@@ -653,7 +653,8 @@ pub fn check(cfg: &CheckCfg) -> i32 {
             "c10_variants_built": agg.stats.c10_variants_built,
             "runs_compared_across_os_processes": cross_compared,
             "faults_fired": agg.stats.fired,
-            "rare_condition_probes": agg.stats.probes,
+            "rare_condition_probes": agg.stats.probes.iter().filter(|(k, _)| !k.starts_with("edit:")).map(|(k, v)| (k.clone(), *v)).collect::<BTreeMap<String, u64>>(),
+            "editor_actions_by_kind": agg.stats.probes.iter().filter(|(k, _)| k.starts_with("edit:")).map(|(k, v)| (k[5..].to_string(), *v)).collect::<BTreeMap<String, u64>>(),
             "known_findings_hit": agg.stats.known_findings,
             "distinct_states_at_checkpoints": agg.state_hashes.len(),
             "distinct_histories": agg.history_hashes.len(),
